@@ -19,7 +19,7 @@ EXPLANATION = (
     "and returns Ok only on add_edges' Ok edge.  R-C01-3 each error kind is control-dependent on its own policy atoms with the right "
     "polarity, all six spec fields are read by add_edge, the silent-drop Ok writes nothing.  R-C01-4 add_node's per-path written sets "
     "are exactly REPLACE (index-assign + nodes_map_rev insert, no push, no nodes_map write) when the name exists, else APPEND (all "
-    "seven per-node stores, vectors by push).  R-C01-5 the source endpoint is created before the target.  R-C01-7 the keyed accesses to `edges`/`edges_map` in add_edge and its callees (duplicate lookup, insertion) obey the stores' canonical-key discipline (same rule as R-C02-3).  NOT decided: that each "
+    "seven per-node stores, vectors by push).  R-C01-5 the source endpoint is created before the target.  R-C01-8 add_edge and the batch wrappers (incl. the constructor) write the per-node stores only by calling add_node.  R-C01-7 the keyed accesses to `edges`/`edges_map` in add_edge and its callees (duplicate lookup, insertion) obey the stores' canonical-key discipline (same rule as R-C02-3).  NOT decided: that each "
     "branch computes the right outcome (e.g. KeepFirst/KeepLast swapped), weights/NaN handling."
 )
 TRUSTED = ["rustc MIR construction", "std HashMap/Vec semantics for insert/push/entry", "CFG paths over-approximate executions (X1 is the one named infeasible-path exemption)"]
@@ -122,6 +122,24 @@ def run(ctx):
     rule4(ctx, prog, flows, effects, add_node)
     rule5(ctx, prog, flows, add_edge)
     rule6(ctx, prog, flows, effects, add_edge)
+    # R-C01-8: who may create a node.  add_node is the one place that decides between REPLACE and APPEND (R-C01-4);
+    # add_edge (and the batch wrappers) create missing endpoints by CALLING it.  A node-store append written into
+    # add_edge itself (directly or through a new helper that was spliced in) bypasses that decision.
+    ctx.rule("R-C01-8", "add_edge and the batch wrappers write the per-node stores only by calling add_node")
+    NODE_STORES = ("nodes_vec", "nodes_map", "nodes_map_rev")
+    for sfx in ["creation::Graph::add_edge"] + BATCH:
+        wb = prog.one(sfx)
+        direct_w = []
+        for (bb, site, f, kind) in index_events(effects, wb):
+            if f not in NODE_STORES or kind in SLOT_KINDS:
+                continue
+            via = site.callee.short.split("::")[-1] if getattr(site, "k", None) == "call" and site.callee else "assign"
+            tp = site.callee.target_path(prog) if getattr(site, "k", None) == "call" and site.callee else None
+            if tp is not None and (tp == add_node.path or any(prog.one(x).path == tp for x in ATOMIC + BATCH)):
+                continue
+            direct_w.append("%s via %s at %s" % (f, via, loc_str(site.span)))
+        ctx.require(not direct_w, "R-C01-8", "node-stores|" + wb.short.split("::")[-1], "%s creates nodes only through add_node" % sfx.split("::")[-1], "%s writes the node stores itself (%s): the existing-name check of add_node is bypassed, so a name can be appended twice (a self-loop on a new node, a repeated name in a batch)" % (sfx.split("::")[-1], "; ".join(sorted(set(direct_w))[:3])), loc_str(wb.span))
+
     # R-C01-7: the duplicate test and the stores agree on the pair's key (either orientation when undirected)
     from props.c02 import key_discipline
 
